@@ -45,14 +45,13 @@ def run(prop, replay=None):
     # GEN
     L = 9 if quick else 12
     r = tlc_cfg("_gen.cfg", base % (6, L) + "INIT GInit\nNEXT GNext\nINVARIANT Emit\nCONSTRAINT Stop\nCHECK_DEADLOCK FALSE\n", "CoordGen", "gen_" + prop, workers=1, timeout=1800,
-                simulate=(1300 if quick else 40000), depth=L + 1, tlc_seed=vlib.seed())
+                simulate=(1300 if quick else 6000), depth=L + 1, tlc_seed=vlib.seed())
     if r.error:
         raise vlib.ToolError("GEN: " + r.error + r.stdout[-1500:])
     cases = extract_cases(r.stdout)
     if len(cases) < 100:
         raise vlib.ToolError("GEN produced only %d histories" % len(cases))
-    if quick:
-        cases = cases[:1200 if prop == "C33" else 500]
+    cases = cases[:((1200 if prop == "C33" else 500) if quick else 9000)]
     v.add_tlc(r, "GEN simulate (interleaved phases)")
     if prop == "C32":
         # state coverage: one call history per TRANSITION of sequential use (breadth-first, history hidden by a VIEW)
@@ -79,7 +78,7 @@ def run(prop, replay=None):
     ok1 = tv_blocks(v, prop, SPEC, "CoordTrace", CONST, INV[prop], tpath, "gen")
     # TV random
     rep2, tr2 = os.path.join(w, "report2.json"), os.path.join(w, "trace2.ndjson")
-    run_harness("vh", ["coord-record", rep2, tr2, 150 if quick else 3000, 14 if quick else 24])
+    run_harness("vh", ["coord-record", rep2, tr2, 150 if quick else 1500, 14 if quick else 24])
     rp2 = load_report(rep2)
     v.add_report(rp2)
     ok2 = tv_blocks(v, prop, SPEC, "CoordTrace", CONST, INV[prop], tr2, "rnd")
